@@ -44,8 +44,8 @@ const vfMsBatch = 40
 const vfMsTick = time.Millisecond
 
 var vfMsRule = map[string]string{
-	"C06": "; millisecond stage: batch b = PRNG splitmix(seed,'C06ms',b) of 40 concurrent scenarios on a real-clock leader (24 quick / 1600 thorough batches): holds with a millisecond expiry 1..2999 ms, alone (calibration) or followed after a PRNG delay by an update (flag 0x02) / re-entrant re-lock that changes the terms (ms longer, ms shorter, ms -> 1-3 s, ms -> 600 s, 2-4 s -> ms); a notice under request r earlier than r's term after r was sent is a violation, so is a hold not ended 8 s after its deadline while the batch's calibration holds were on time, and a probe refused after the notice",
-	"C05": "; millisecond stage: batch b = PRNG splitmix(seed,'C05ms',b) of 40 concurrent scenarios on a real-clock leader (24 quick / 1600 thorough batches): a request queued behind a holder with a millisecond time-out 0..2999 ms (and plain calibration waits); TIMEOUT earlier than the term after the send is a violation, so is a request not answered 8 s after its deadline while the batch's calibration waits were on time",
+	"C06": "; millisecond stage: batch b = PRNG splitmix(seed,'C06ms',b) of 40 concurrent scenarios on a real-clock leader (24 quick / 1600 thorough batches): holds with a millisecond expiry 1..2999 ms (and 3000..7300 ms, which are handed over to the per-second wheel), alone (calibration) or followed after a PRNG delay by an update (flag 0x02) / re-entrant re-lock that changes the terms (ms longer, ms shorter, ms -> 1-3 s, ms -> 600 s, 2-4 s -> ms); a notice under request r earlier than r's term after r was sent is a violation, so is a hold not ended 8 s after its deadline while the batch's calibration holds were on time, and a probe refused after the notice",
+	"C05": "; millisecond stage: batch b = PRNG splitmix(seed,'C05ms',b) of 40 concurrent scenarios on a real-clock leader (24 quick / 1600 thorough batches): a request queued behind a holder with a millisecond time-out 0..2999 ms or 3000..7300 ms (and plain calibration waits); TIMEOUT earlier than the term after the send is a violation, so is a request not answered 8 s after its deadline while the batch's calibration waits were on time",
 }
 
 var vfMsAssumptions = []string{"millisecond stage: real clock; 'early' is decided from the client's send time and the observation time (sound under load), 'not ended' only with a 6 s margin beyond the statement's bound and only when the calibration scenarios of the same batch were on time; lateness inside the margin is counted, not judged"}
@@ -104,10 +104,15 @@ func vfMsPlan(prop string, rng *vfRand, calibration bool) *vfMsScenario {
 			return rng.Range(30, 2900)
 		}
 	}
+	// millisecond terms too long for the 3000-slot millisecond queues are handed over to the per-second wheel
+	above := []int{3000, 3000, 3001, 3500, 4500, 4999, 5999, 6000, 7300}
 	if prop == "C05" {
 		s := &vfMsScenario{Kind: "wait", E1: ms()}
 		if !calibration && rng.Chance(8) {
 			s.E1 = 0
+		}
+		if !calibration && rng.Chance(12) {
+			s.Kind, s.E1 = "wait-above-3000ms", above[rng.Intn(len(above))]
 		}
 		if calibration {
 			s.Kind = "wait-calibration"
@@ -118,7 +123,9 @@ func vfMsPlan(prop string, rng *vfRand, calibration bool) *vfMsScenario {
 	if calibration {
 		return &vfMsScenario{Kind: "plain-calibration", E1: rng.Range(200, 1500)}
 	}
-	switch rng.Intn(7) {
+	switch rng.Intn(8) {
+	case 7:
+		return &vfMsScenario{Kind: "plain-above-3000ms", E1: above[rng.Intn(len(above))]}
 	case 0:
 		return &vfMsScenario{Kind: "plain", E1: ms()}
 	case 1: // ms -> longer ms
@@ -180,6 +187,12 @@ func vfMsRun(inst *vfMsInst, prop string, batch, j int, sc *vfMsScenario) *vfMsR
 	}
 	sent := map[byte]time.Duration{}
 	term := map[byte]time.Duration{}
+	lagAtSend := map[byte]int64{}
+	// terms that are timed by the per-second wheel (seconds, or milliseconds >= 3000) start from the server's second
+	// clock; when that clock is behind real time while the terms are set, the hold may end that much early in real
+	// time without any defect: such an observation is counted, not judged
+	unitSec := map[byte]bool{}
+	onSecondClock := func(rid byte) bool { return unitSec[rid] || term[rid] >= 3*time.Second }
 	send := func(rid byte, ctype uint8, lockId int, flag uint8, e uint16, eflag uint16, t uint16, tflag uint16, count uint16, rcount uint8) {
 		cmd := p.GetLockCommand()
 		cmd.Magic, cmd.Version, cmd.CommandType = protocol.MAGIC, protocol.VERSION, ctype
@@ -188,6 +201,10 @@ func vfMsRun(inst *vfMsInst, prop string, batch, j int, sc *vfMsScenario) *vfMsR
 		cmd.Expried, cmd.ExpriedFlag, cmd.Rcount, cmd.Count, cmd.Timeout, cmd.TimeoutFlag, cmd.Flag, cmd.DbId = e, eflag, rcount, count, t, tflag, flag, 0
 		cmd.Data = nil
 		sent[rid] = now()
+		if db := slock.dbs[0]; db != nil {
+			// whole seconds the server's own second clock is behind real time right now (0 unless its ticker is starved)
+			lagAtSend[rid] = time.Now().Unix() - db.currentTime
+		}
 		trace("send r%d type=%d L%d flag=%02x e=%d/%04x t=%d/%04x cnt=%d rc=%d", rid, ctype, lockId, flag, e, eflag, t, tflag, count, rcount)
 		_ = p.ProcessLockCommand(cmd)
 	}
@@ -239,7 +256,9 @@ func vfMsRun(inst *vfMsInst, prop string, batch, j int, sc *vfMsScenario) *vfMsR
 				if sc.E1 == 0 {
 					res.counters["ms_timeouts_immediate"]++
 				}
-				if el < term[2]-vfMsTick {
+				if el < term[2]-vfMsTick && onSecondClock(2) && lagAtSend[2] > 0 {
+					res.counters["ms_early_not_judged_(server_second_clock_behind)"]++
+				} else if el < term[2]-vfMsTick {
 					violate("timeout-early", "", "TIMEOUT observed %v after the request was sent, its time-out is %d ms", el, sc.E1)
 				}
 			}
@@ -251,7 +270,7 @@ func vfMsRun(inst *vfMsInst, prop string, batch, j int, sc *vfMsScenario) *vfMsR
 	}
 
 	// ---- C06
-	term[1] = vfMsTerm(sc.E1, sc.E1Sec)
+	term[1], unitSec[1] = vfMsTerm(sc.E1, sc.E1Sec), sc.E1Sec
 	send(1, protocol.COMMAND_LOCK, 1, 0, uint16(sc.E1), eflag(sc.E1Sec), 0, 0, 0, 2)
 	if ev, ok := wait(replyWait, func(ev vfMsEvent) bool { return ev.rid == 1 }); !ok || ev.result != protocol.RESULT_SUCCED {
 		return res
@@ -260,7 +279,7 @@ func vfMsRun(inst *vfMsInst, prop string, batch, j int, sc *vfMsScenario) *vfMsR
 	pending := []vfMsEvent{}
 	if sc.E2 > 0 {
 		time.Sleep(time.Duration(sc.Delay) * time.Millisecond)
-		term[2] = vfMsTerm(sc.E2, sc.E2Sec)
+		term[2], unitSec[2] = vfMsTerm(sc.E2, sc.E2Sec), sc.E2Sec
 		flag := uint8(protocol.LOCK_FLAG_UPDATE_WHEN_LOCKED)
 		if sc.Relock {
 			flag = 0
@@ -314,7 +333,9 @@ func vfMsRun(inst *vfMsInst, prop string, batch, j int, sc *vfMsScenario) *vfMsR
 		} else {
 			el := notice.at - sent[notice.rid]
 			res.counters["ms_notices_timed"]++
-			if el < t-vfMsTick {
+			if el < t-vfMsTick && onSecondClock(notice.rid) && lagAtSend[notice.rid] > 0 {
+				res.counters["ms_early_not_judged_(server_second_clock_behind)"]++
+			} else if el < t-vfMsTick {
 				sig := ""
 				if notice.rid == 2 && !sc.E2Sec {
 					// open known finding: only for new terms in milliseconds (new terms in seconds are re-filed: bf94317)
